@@ -135,7 +135,12 @@ void *__wrap_realloc(void *old, size_t sz) {
     }
     return p;
 }
+/* page-straddling placements handed out by exact_copy (vh_main.c) are not heap blocks */
+extern uint8_t *vh_place_lo, *vh_place_hi;
 void __wrap_free(void *p) {
+    if (p && (uint8_t *)p >= vh_place_lo && (uint8_t *)p < vh_place_hi) {
+        return;
+    }
     if (vh_track) {
         live_del(p);
     }
